@@ -83,3 +83,12 @@ Example c16_never_initiated_instance :
      AOwner; AOwner; AMSend; AOwner; AOwner; AMRecvStep; AOwner; AOwner; AU 0] = Some x /\
   ts (shd x) = TClosed /\ map urets (uths x) = [[(UStop, 0%N)]; [(UClose, 1%N)]].
 Proof. eexists. split; [vm_compute; reflexivity|]. vm_compute. auto. Qed.
+
+(* FIN carries the next frame number: for any sequence of writes and closes on the sender, the FIN's
+   frame number is one more than the number of data frames, every data frame number is below it,
+   and nothing is numbered after it (with C08's in-order reassembly, EOF follows all data) *)
+Theorem c16_fin_after_data : forall l, let s := snd_run l in
+  finSent s = true ->
+  (finNo s = N.of_nat (length (datas s)) + 1 /\ (forall f, In f (datas s) -> 1 <= f < finNo s) /\ frameNo s = finNo s + 1)%N.
+Proof. exact fin_after_data. Qed.
+Print Assumptions c16_fin_after_data.
